@@ -504,6 +504,12 @@ FIXED += [
      json.loads('{"result": "v1", "steps": [{"out": "v0", "table": "t0", "verb": "source"}, {"in": "v0", "items": [["c", ["fn", "clip", [["case", [[["col", {"c": "x"}], ["col", {"c": "id"}]]], ["lit", -7]], ["lit", -4.75], ["lit", 338.375]], {}]]], "out": "v1", "verb": "mutate"}], "tables": [{"cols": [["id", "int64"], ["k", "str"], ["y", "float64"], ["x", "bool"]], "name": "t0", "rows": [[1, "", 0.0, false]]}]}')),
 ]
 
+FIXED += [
+    ('F70-sql-shift-int-float-fill', 'C05', 'SQL shift of an integer expression with a float fill value',
+     'SQL: shift(int_expr, n, <float literal>) bound the fill value with the integer type of the column: -8240.5 became -8240 (static type Float, Polars keeps -8240.5)',
+     json.loads('{"result": "v2", "steps": [{"out": "v0", "table": "t0", "verb": "source"}, {"in": "v0", "keys": [[["lit", -33.5], true, null, 0]], "out": "v1", "verb": "arrange"}, {"in": "v1", "items": [["d", ["fn", "shift", [["fn", "coalesce", [["fn", "clip", [["col", {"n": "id", "v": "v1"}], ["lit", -9655], ["lit", 20]], {}]], {}], ["lit", -1], ["lit", -8240.5]], {"arrange": [[["col", {"c": "id"}], false, null, 0]], "partition_by": [["col", {"c": "d"}], ["col", {"c": "id"}]]}]]], "out": "v2", "verb": "mutate"}], "tables": [{"cols": [["id", "int64"], ["d", "float64"], ["x", "bool"], ["y", "float64"]], "name": "t0", "rows": [[1, 879.0, false, -1.5]]}]}')),
+]
+
 
 def main():
     log = subprocess.run(["git", "-C", "/repo", "log", "--format=%h %s"], capture_output=True, text=True).stdout.splitlines()
